@@ -2,7 +2,7 @@
 # tools/run_harmless.sh <dir with hN.diff> [props...] -- apply each behaviour-preserving patch to /repo, run the quick checks, undo
 d="$1"; shift; props="$@"; [ -z "$props" ] && props="C01 C02 C03 C04 C05 C06 C07 C08 C09 C10 C11 C12 C13 C14 C15 C16 C17 C18 C19"
 cd /verif; mkdir -p build/harmless
-for f in "$d"/h*.diff; do
+for f in "$d"/*.diff; do
   n=$(basename "$f" .diff)
   [ -n "$(git -C /repo status --porcelain)" ] && { echo "/repo not clean"; exit 2; }
   git -C /repo apply "$f" || { echo "$n: does not apply"; continue; }
